@@ -134,8 +134,9 @@ fn part_norm(max: u32) -> PartResult {
     r
 }
 
-// "A": the comparison is case-sensitive
-const IDENTS: [&str; 5] = ["a", "aa", "ab", "b", "A"];
+// "A": the comparison is case-sensitive; "a?": a nickname may itself contain a mask
+// character - an argument spelled like it is still a mask
+const IDENTS: [&str; 6] = ["a", "aa", "ab", "b", "A", "a?"];
 
 fn ident_source(n: &str) -> String {
     format!("{}!~u{}@127.0.0.1", n, n)
@@ -159,7 +160,7 @@ pub fn case_wire(caller: &str, mask: &str, ident: &str) -> Vec<Finding> {
     if caller == "usermask" {
         cfg.users = vec![(format!("u{}", ident), ident.to_string(), None, Some(mask.to_string()))];
     }
-    let mut w = World::new(cfg.main_config(), 7);
+    let mut w = World::new(cfg.main_config(), 8);
     macro_rules! m {
         ($e:expr) => {
             match $e {
